@@ -1,0 +1,7 @@
+//go:build !verif
+
+package mod
+
+import "time"
+
+func verifNowOr(t time.Time) time.Time { return t }
